@@ -250,7 +250,8 @@ Section Path.
         destruct mk; cbn [m_open app] in SKb.
         - rewrite (impl_peek_dispatch ps s pb ws 36%N _ W SKb space_36). exact D.
         - rewrite (impl_peek_dispatch ps s pb ws 92%N _ W SKb space_92). exact D.
-        - rewrite (impl_peek_dispatch ps s pb ws 92%N _ W SKb space_92). exact D. }
+        - rewrite (impl_peek_dispatch ps s pb ws 92%N _ W SKb space_92). exact D.
+        - rewrite (impl_peek_dispatch ps s pb ws 36%N _ W SKb space_36). exact D. }
       pose proof (skipn_shift _ _ _ _ SKb) as SK1.
       assert (T1 : impl_peek ps s (pb + length ws)
                    = TokOk (PLV.Tok.Tokenizer.mk (m_tok mk) (m_open mk) (pb + length ws)
@@ -259,7 +260,8 @@ Section Path.
         destruct mk; cbn [m_open app] in SK1.
         - rewrite (impl_peek_dispatch ps s _ [] 36%N _ eq_refl SK1 space_36). cbn [length]. rewrite Nat.add_0_r. exact D.
         - rewrite (impl_peek_dispatch ps s _ [] 92%N _ eq_refl SK1 space_92). cbn [length]. rewrite Nat.add_0_r. exact D.
-        - rewrite (impl_peek_dispatch ps s _ [] 92%N _ eq_refl SK1 space_92). cbn [length]. rewrite Nat.add_0_r. exact D. }
+        - rewrite (impl_peek_dispatch ps s _ [] 92%N _ eq_refl SK1 space_92). cbn [length]. rewrite Nat.add_0_r. exact D.
+        - rewrite (impl_peek_dispatch ps s _ [] 36%N _ eq_refl SK1 space_36). cbn [length]. rewrite Nat.add_0_r. exact D. }
       replace (pos + length (lf_text (LMath b w mk))) with (pb + length ws + length (m_open mk)) in H
         by (rewrite LT; cbn [lf_open]; unfold pb; lia).
       pose proof (erule_general s cx _ _ _ _ _ _ H) as E1.
